@@ -205,7 +205,7 @@ impl<C: Cursor, D: Determiner> GarbageCollector<C, D> {
                         proof {
                             assert(self.determiner.calls() =~= lg0 + questions(s, p0, pv + 1));
                             let cur = *self;
-                            assert forall|post: GarbageCollector<C, D>, rr: Option<KeyRef<'_>>|
+                            /* tail-post */ assert forall|post: GarbageCollector<C, D>, rr: Option<KeyRef<'_>>|
                                 return_key_post(cur, post, kvp, tombstones@, rr) implies next_post(pre, post, rr) by {
                                 assert(post.cursor.pos() == pv + 1);
                                 assert(post.determiner.answers().last());
